@@ -588,11 +588,15 @@ impl<T> DataReaderEntity<T> {
                     x.last_received_time = reception_timestamp;
                 }
             }
-            None => self.instance_ownership.push(InstanceOwnership {
-                instance_handle: change_instance_handle,
-                last_received_time: reception_timestamp,
-                owner_handle: sample_writer_guid,
-            }),
+            // A dispose or unregister gives up the ownership (removed above): it must not be re-established here
+            None if matches!(change_kind, ChangeKind::Alive | ChangeKind::AliveFiltered) => {
+                self.instance_ownership.push(InstanceOwnership {
+                    instance_handle: change_instance_handle,
+                    last_received_time: reception_timestamp,
+                    owner_handle: sample_writer_guid,
+                })
+            }
+            None => (),
         }
         Ok(AddChangeResult::Added)
     }
